@@ -198,9 +198,13 @@ def run_check(pid, tier, seed):
         "violations": len(new),
         "known_findings_reproduced": {k: len(v) for k, v in old.items()},
     }
+    if hasattr(mod, "finalize"):
+        ev["coverage"]["exhaustive"] = bool(ev["coverage"]["exhaustive"] and not (mod.finalize(cov) or []))
     os.makedirs(os.path.join(VERIF, "evidence"), exist_ok=True)
     with open(os.path.join(VERIF, "evidence", f"{pid}.json"), "w") as f:
         json.dump(jsonable(ev), f, indent=1)
+    if hasattr(mod, "finalize"):
+        harness_errors += list(mod.finalize(cov) or [])
     for ln in lines:
         print(ln)
     print(f"# {pid} tier={tier} seed={seed} states={cov['states']} transitions={cov['transitions']} "
